@@ -12,6 +12,7 @@
 package simrt
 
 import (
+	"context"
 	"fmt"
 	"reflect"
 	"runtime"
@@ -68,11 +69,12 @@ const (
 	stBlocked               // parked, waiting on a simulated primitive
 	stExternal              // inside an annotated real blocking operation
 	stDone
+	stDormant // a callback registered with the runtime (context.AfterFunc, time.AfterFunc) that has not fired
 )
 
 //go:norace
 func (s state) String() string {
-	return [...]string{"ready", "running", "blocked", "external", "done"}[s]
+	return [...]string{"ready", "running", "blocked", "external", "done", "dormant"}[s]
 }
 
 // Task is one simulated thread of control.
@@ -280,15 +282,17 @@ func (s *Sim) loop() {
 			s.killIx++
 		}
 		var ready []*Task
-		external, alive := 0, 0
+		external, alive, dormant := 0, 0, 0
 		for _, t := range s.tasks {
 			switch t.st {
 			case stReady:
 				ready = append(ready, t)
 			case stExternal:
 				external++
+			case stDormant:
+				dormant++
 			}
-			if t.st != stDone {
+			if t.st != stDone && t.st != stDormant {
 				alive++
 			}
 		}
@@ -303,7 +307,8 @@ func (s *Sim) loop() {
 			return
 		}
 		if len(ready) == 0 {
-			if external == 0 {
+			// a dormant callback may still fire when simulated time advances (a context deadline, a timer)
+			if external == 0 && dormant == 0 {
 				s.rep.Deadlock = true
 				s.rep.DeadlockInfo = s.waitGraph()
 				s.mu.Unlock()
@@ -526,7 +531,7 @@ func (s *Sim) yield(site Site) {
 	// Fast path: nobody else can run and nobody can become runnable behind our back.
 	others := false
 	for _, o := range s.tasks {
-		if o != t && (o.st == stReady || o.st == stExternal) {
+		if o != t && (o.st == stReady || o.st == stExternal || o.st == stDormant) {
 			others = true
 			break
 		}
@@ -688,6 +693,88 @@ func AfterBlock(k Tok) {
 	}
 	raceEnable()
 	s.park(k.t)
+}
+
+// ---------------------------------------------------------------------------
+// Callbacks that the Go runtime runs on goroutines of its own (context.AfterFunc,
+// time.AfterFunc). The instrumenter routes both through here: the callback is
+// pre-registered as a dormant task (its id is fixed at registration, so runs stay
+// repeatable); when the runtime fires it, the new goroutine becomes a ready task and
+// parks until the scheduler releases it. While a dormant callback exists every
+// decision point hands over to the scheduler, whose synctest.Wait lets a callback that
+// has just been fired reach its parking place before the next choice is made.
+
+//go:norace
+func (s *Sim) newDormant(name string) *Task {
+	s.mu.Lock()
+	defer s.mu.Unlock()
+	inc := 0
+	if s.current != nil {
+		inc = s.current.Inc
+	}
+	t := &Task{ID: len(s.tasks), Name: name, Inc: inc, st: stDormant, wake: make(chan struct{}), sim: s, site: SiteStart}
+	s.tasks = append(s.tasks, t)
+	return t
+}
+
+//go:norace
+func (s *Sim) runForeign(t *Task, f func()) {
+	if cur.Load() != s || s.dying.Load() {
+		return // the run is over (or being torn down): the callback is dropped with it
+	}
+	s.mu.Lock()
+	if t.st != stDormant {
+		s.mu.Unlock()
+		return
+	}
+	t.st = stReady
+	s.mu.Unlock()
+	select {
+	case s.wakeCh <- struct{}{}:
+	default:
+	}
+	s.taskMain(t, f)
+}
+
+//go:norace
+func (s *Sim) disarm(t *Task) {
+	s.mu.Lock()
+	if t.st == stDormant {
+		t.st = stDone
+	}
+	s.mu.Unlock()
+}
+
+// ContextAfterFunc is context.AfterFunc with the callback run as a task.
+//
+//go:norace
+func ContextAfterFunc(ctx context.Context, f func()) (stop func() bool) {
+	s := cur.Load()
+	if s == nil || s.dying.Load() {
+		return context.AfterFunc(ctx, f)
+	}
+	t := s.newDormant("context.AfterFunc")
+	realStop := context.AfterFunc(ctx, func() { s.runForeign(t, f) })
+	return func() bool {
+		ok := realStop()
+		if ok {
+			s.disarm(t)
+		}
+		return ok
+	}
+}
+
+// TimeAfterFunc is time.AfterFunc with the callback run as a task. (A Stop or Reset of the returned
+// timer is not observed: a stopped callback stays dormant, which only costs the fast path.)
+//
+//go:norace
+func TimeAfterFunc(d time.Duration, f func()) *time.Timer {
+	s := cur.Load()
+	if s == nil || s.dying.Load() {
+		return time.AfterFunc(d, f)
+	}
+	t := s.newDormant("time.AfterFunc")
+	return time.AfterFunc(d, func() { s.runForeign(t, f) })
 }
 
 // Sleep sleeps in simulated time.
